@@ -1055,7 +1055,8 @@ fn histogram_fill(m: &Map<String, Value>) -> Fill {
 }
 
 /// `date_histogram`: calendar unit or fixed step in whole milliseconds
-fn date_histogram_fill(m: &Map<String, Value>) -> Fill {
+/// parsed configuration of a `date_histogram` with bounds: (calendar unit ms, step ms, offset ms, lo, hi)
+fn date_parse(m: &Map<String, Value>) -> Result<(Option<f64>, i64, i64, i64, i64), Fill> {
   let str_of = |k: &str| -> Result<Option<String>, ()> {
     match m.get(k) {
       None | Some(Value::Null) => Ok(None),
@@ -1063,9 +1064,9 @@ fn date_histogram_fill(m: &Map<String, Value>) -> Fill {
       Some(_) => Err(()),
     }
   };
-  let (Ok(cal), Ok(fixed), Ok(offset)) = (str_of("calendar_interval"), str_of("fixed_interval"), str_of("offset")) else { return Fill::NoFill };
+  let (Ok(cal), Ok(fixed), Ok(offset)) = (str_of("calendar_interval"), str_of("fixed_interval"), str_of("offset")) else { return Err(Fill::NoFill) };
   if cal.is_none() && fixed.is_none() {
-    return Fill::NoFill;
+    return Err(Fill::NoFill);
   }
   let cal_ms: Option<f64> = match cal.as_deref().map(|c| c.to_ascii_lowercase()) {
     None => None,
@@ -1075,21 +1076,21 @@ fn date_histogram_fill(m: &Map<String, Value>) -> Fill {
       "month" | "1m" => Some(28.0 * 86_400_000.0),
       "quarter" | "1q" => Some(89.0 * 86_400_000.0),
       "year" | "1y" => Some(365.0 * 86_400_000.0),
-      _ => return Fill::NoFill,
+      _ => return Err(Fill::NoFill),
     },
   };
   let fixed_ms: Option<i64> = match fixed.as_deref() {
     None => None,
     Some(f) => match interval_seconds(f) {
       Some(sec) => Some((sec * 1000.0) as i64),
-      None => return Fill::NoFill,
+      None => return Err(Fill::NoFill),
     },
   };
   let off: i64 = match offset.as_deref() {
     None => 0,
     Some(o) => match interval_seconds(o) {
       Some(sec) => (sec * 1000.0) as i64,
-      None => return Fill::NoFill,
+      None => return Err(Fill::NoFill),
     },
   };
   let mut chosen: Option<(f64, f64)> = None;
@@ -1098,37 +1099,58 @@ fn date_histogram_fill(m: &Map<String, Value>) -> Fill {
       None | Some(Value::Null) => {}
       Some(b) => {
         if !b["min"].is_string() || !b["max"].is_string() {
-          return Fill::NoFill;
+          return Err(Fill::NoFill);
         }
         match (date_ms(&b["min"]), date_ms(&b["max"])) {
           (Ok(Some(lo)), Ok(Some(hi))) => {
             if lo > hi {
-              return Fill::NoFill;
+              return Err(Fill::NoFill);
             }
             if chosen.is_none() {
               chosen = Some((lo, hi));
             }
           }
-          (Err(()), _) | (_, Err(())) => return Fill::Unknown,
-          _ => return Fill::NoFill,
+          (Err(()), _) | (_, Err(())) => return Err(Fill::Unknown),
+          _ => return Err(Fill::NoFill),
         }
       }
     }
   }
-  let Some((lo, hi)) = chosen else { return Fill::NoFill };
+  let Some((lo, hi)) = chosen else { return Err(Fill::NoFill) };
   let (lo, hi) = (lo as i64, hi as i64);
+  Ok((cal_ms, fixed_ms.unwrap_or(86_400_000), off, lo, hi))
+}
+
+/// the float step of `bucket_start`: `(d as f64 / step as f64).ceil() as i64`
+pub fn bucket_of(d: i64, step: i64) -> i64 {
+  (d as f64 / step as f64).ceil() as i64
+}
+
+/// `bucket_start(value, offset, Fixed(step))` since /repo d7457e1: every step checked
+pub fn bucket_start(v: i64, off: i64, step: i64) -> Option<i64> {
+  let d = v.checked_sub(off)?;
+  bucket_of(d, step).checked_mul(step)?.checked_add(off)
+}
+
+/// inputs of the fixed-step fill of a bounded `date_histogram`: (step, offset, lo, hi)
+pub fn date_inputs(m: &Map<String, Value>) -> Option<(i64, i64, i64, i64)> {
+  match date_parse(m) {
+    Ok((None, step, off, lo, hi)) => Some((step, off, lo, hi)),
+    _ => None,
+  }
+}
+
+/// `date_histogram`: calendar unit or fixed step in whole milliseconds
+fn date_histogram_fill(m: &Map<String, Value>) -> Fill {
+  let (cal_ms, step, off, lo, hi) = match date_parse(m) {
+    Ok(p) => p,
+    Err(f) => return f,
+  };
   if let Some(unit) = cal_ms {
     return Fill::Count((((hi as f64) - (lo as f64)) / unit) as u128 + 2, None);
   }
-  let step = fixed_ms.unwrap_or(86_400_000);
-  // bucket_start: `(value - offset)`, `saturating_mul(step) + offset` — an overflow there is a
-  // panic before any loop
-  let start_of = |v: i64| -> Option<i64> {
-    let d = v.checked_sub(off)?;
-    let bucket = (d as f64 / step as f64).ceil() as i64;
-    bucket.saturating_mul(step).checked_add(off)
-  };
-  let (Some(mut a), Some(mut b)) = (start_of(lo), start_of(hi)) else { return Fill::Count(0, None) };
+  // no bucket for a bound (a checked step failed): `finish` does not fill
+  let (Some(mut a), Some(mut b)) = (bucket_start(lo, off, step), bucket_start(hi, off, step)) else { return Fill::Count(0, None) };
   if a > b {
     std::mem::swap(&mut a, &mut b);
   }
